@@ -379,7 +379,18 @@ func emit(l *logger.Logger, r *record) {
 	case 2:
 		l.Log(context.Background(), r.level, msg, r.args...)
 	case 3:
-		l.Logf(context.Background(), r.level, "%s", msg)
+		switch r.level {
+		case logger.LevelDebug:
+			l.Debugf("%s", msg)
+		case logger.LevelInfo:
+			l.Infof("%s", msg)
+		case logger.LevelWarn:
+			l.Warnf("%s", msg)
+		case logger.LevelError:
+			l.Errorf("%s", msg)
+		default:
+			l.Logf(context.Background(), r.level, "%s", msg)
+		}
 	default:
 		// Panic logs at LevelError and then panics with the message
 		func() {
@@ -391,6 +402,9 @@ func emit(l *logger.Logger, r *record) {
 					panic(fmt.Sprintf("Logger.Panic raised %v, want %q", p, msg))
 				}
 			}()
+			if len(r.args) == 0 {
+				l.Panicf("%s", msg)
+			}
 			l.Panic(msg, r.args...)
 		}()
 	}
